@@ -2,6 +2,7 @@
 import json, os
 import c06
 import rxcommon
+import sys
 
 
 def run(ctx):
@@ -12,6 +13,11 @@ def run(ctx):
     ctx.tlc_mc("", "MC_Wire", "MC_Wire.cfg", workers=4)
     rxcommon.reader_badlen_design(ctx)
     t = c06.drive(ctx, "C10", ["-count", 1, "-mut", 12 if thorough else 2], "structured hostile inputs generated from valid encodings")
+    # the login negotiation is a parser of server input as well: every single-edit reply script (unusable keys,
+    # wrong types, missing packages) must end in success or an error, never in a panic
+    import c08
+    scripts = c08.gen_scripts(ctx, "Gen_LoginFlow.cfg")
+    c08.run_login(ctx, scripts, "C10", label="every single-edit login reply script: no panic")
     n = kinds = 0
     cls = {"ok": 0, "need": 0, "err": 0, "panic": 0}
     sample = None
